@@ -1,12 +1,34 @@
 package main
 
-import "fmt"
+import (
+	"fmt"
+	"os"
+	"strings"
+)
 
 func runDump(c *Ctx, what string) {
 	switch what {
 	case "spawn":
 		c.dumpSpawn()
+	case "funcs":
+		for _, f := range c.ModFns {
+			if f.Parent() == nil {
+				fmt.Printf("%s\t%s\n", f.String(), sigKey(f))
+			}
+		}
+	case "inline":
+		for _, l := range c.inlineLog() {
+			fmt.Println(l)
+		}
 	default:
+		if strings.HasPrefix(what, "ssa:") {
+			for _, f := range c.ModFns {
+				if strings.Contains(f.String(), what[4:]) {
+					f.WriteTo(os.Stdout)
+				}
+			}
+			return
+		}
 		if f, ok := dumpers[what]; ok {
 			f(c)
 			return
@@ -16,3 +38,16 @@ func runDump(c *Ctx, what string) {
 }
 
 var dumpers = map[string]func(*Ctx){}
+
+func init() {
+	dumpers["scan"] = func(c *Ctx) {
+		si := c.scanModel()
+		fmt.Println("scan fn:", fnName(si.Fn), "problems:", si.Problems)
+		for _, li := range si.Lists {
+			fmt.Printf("list %q var=%p (%T) append=%s feed=%d read=%d other=%d\n", li.Literal, li.Var, li.Var, c.pos(li.Append.Pos()), len(li.FeedLoops), len(li.ReadLoops), len(li.OtherLoops))
+			for _, l := range append(append([]*scanLoop{}, li.FeedLoops...), li.ReadLoops...) {
+				fmt.Printf("    loop in %s head b%d var=%p desc=%v\n", fnName(l.Fn), l.L.Head.Index, l.Var, l.Descending)
+			}
+		}
+	}
+}
